@@ -32,6 +32,9 @@ pub enum Dg {
     Big(u16, u8),
     /// a query for names the store is likely to hold (colliding alphabet of C13)
     StoreQuery(Vec<AQuestion>),
+    /// a short body over C01's 12-symbol alphabet behind a header whose id octets, read as label lengths, span the
+    /// datagram up to its last octet (0: as a query, 1: as a response)
+    Spanning(Vec<u8>, bool),
     /// a pointer graph of C01 (chains, self / forward / absolute pointers, pointers into fixed fields, stray tail octets)
     Graph(super::c01::Graph),
 }
@@ -69,6 +72,16 @@ pub fn render_dg(d: &Dg) -> Vec<u8> {
             let p = APacket { id: 77, questions: qs.clone(), ..Default::default() };
             encode_message(&p, &EncOpts::compressed())
         }
+        Dg::Spanning(body, response) => {
+            let len = body.len();
+            let mut m = vec![(12 + len).saturating_sub(2) as u8, (12 + len).saturating_sub(3) as u8, if *response { 0x80 } else { 0 }, 0, 0, 1, 0, 0, 0, 0, 0, 0];
+            if *response {
+                m[5] = 0;
+                m[7] = 1;
+            }
+            m.extend_from_slice(body);
+            m
+        }
         Dg::Graph(g) => {
             let mut m = super::c01::render_graph(g);
             m.truncate(8900);
@@ -95,6 +108,7 @@ fn dg_strategy() -> BoxedStrategy<Dg> {
         4 => gen::apacket(3).prop_map(Dg::Response),
         4 => vec((gen::label(), gen::ardata()), 1..5).prop_map(Dg::ServiceResponse),
         1 => (any::<u16>(), gen::u8b()).prop_map(|(n, f)| Dg::Big(n, f)),
+        2 => (vec(proptest::sample::select(vec![0u8, 1, 2, 3, 12, 13, 0x3f, 0x40, 0x80, 0xc0, 0xff, b'a']), 2..=5), any::<bool>()).prop_map(|(b, r)| Dg::Spanning(b, r)),
         2 => super::c01::graph_strategy(Tier::Quick).prop_map(|mut g| { g.repeat_last = g.repeat_last.min(300); Dg::Graph(g) }),
         4 => vec((super::c13::coll_record(), proptest::sample::select(vec![255u16, 1, 33, 16]), any::<bool>()), 1..3)
             .prop_map(|v| Dg::StoreQuery(v.into_iter().map(|(r, qtype, unicast)| AQuestion { name: r.name, qtype, qclass: 255, unicast }).collect())),
@@ -697,7 +711,7 @@ fn check_concurrent(seed: &u32, case: &mut Case) -> Result<(), Fail> {
 pub fn def() -> CheckDef {
     CheckDef {
         id: "C14",
-        rule: "(1) pure pipeline, proptest: a store pre-loaded by 0..7 random operations (as C13) plus a canary record; sequences of 1..19 datagrams drawn from {empty, 1..11 bytes, random bytes, reference encodings with hostile names and 0..8 mutations, valid queries, valid responses, responses under the watched service with hostile instance labels (non-UTF-8, 63 bytes, dots), 1000..9000-byte datagrams}; each datagram goes, step for step, through what the three receive loops do (responder: header peek with unwrap_or(true), parse, build_reply, build_bytes_vec_compressed; discovery: parse, add_response_to_resources (sync, or the async-tokio copy for every third response) under a real RwLock write guard with and without an on_discovery channel, or build_reply; application: get_known_services; one-shot resolver: header peek on a 4096-byte buffer, parse, answer scan). Oracle: no panic, lock not poisoned, every reply parses, the canary is still answered. (1a) replies beyond 16 KiB: a responder holding 193 records under r0..r95.big.local answers an ANY query for big.local; one record is padded by 0..255 octets (6 (24 thorough) choices of the record) so that every name meets every alignment around offset 16384; the reply must parse and carry only registered records. (1b) six threads run the same handling steps concurrently against one shared store for 300 ms (no panic, lock not poisoned; schedules are whatever the OS gives). (2) real sockets, sampled: a real SimpleMdnsResponder and ServiceDiscovery (sync), then the async-tokio responder and discovery on a current-thread runtime, on loopback multicast receive 300 (6000 thorough) generated datagrams between two probe queries, and a real OneShotMdnsResolver (sync, and the async-tokio copy on its own runtime) issues queries while generated responses about the name it asks for (every RDATA kind, also empty RDATA under the asked types) arrive; violation iff a library thread panicked or the responder stops answering; skipped (no claim) when multicast is unusable. Non-trivial = a datagram shorter than 12 bytes or a parsed datagram with hostile names",
+        rule: "(1) pure pipeline, proptest: a store pre-loaded by 0..7 random operations (as C13) plus a canary record; sequences of 1..19 datagrams drawn from {empty, 1..11 bytes, random bytes, reference encodings with hostile names and 0..8 mutations, valid queries, valid responses, responses under the watched service with hostile instance labels (non-UTF-8, 63 bytes, dots), 1000..9000-byte datagrams, C01's pointer graphs, short bodies behind a header whose id octets span the datagram as labels}; each datagram goes, step for step, through what the three receive loops do (responder: header peek with unwrap_or(true), parse, build_reply, build_bytes_vec_compressed; discovery: parse, add_response_to_resources (sync, or the async-tokio copy for every third response) under a real RwLock write guard with and without an on_discovery channel, or build_reply; application: get_known_services; one-shot resolver: header peek on a 4096-byte buffer, parse, answer scan). Oracle: no panic, lock not poisoned, every reply parses, the canary is still answered. (1a) replies beyond 16 KiB: a responder holding 193 records under r0..r95.big.local answers an ANY query for big.local; one record is padded by 0..255 octets (6 (24 thorough) choices of the record) so that every name meets every alignment around offset 16384; the reply must parse and carry only registered records. (1b) six threads run the same handling steps concurrently against one shared store for 300 ms (no panic, lock not poisoned; schedules are whatever the OS gives). (2) real sockets, sampled: a real SimpleMdnsResponder and ServiceDiscovery (sync), then the async-tokio responder and discovery on a current-thread runtime, on loopback multicast receive 300 (6000 thorough) generated datagrams between two probe queries, and a real OneShotMdnsResolver (sync, and the async-tokio copy on its own runtime) issues queries while generated responses about the name it asks for (every RDATA kind, also empty RDATA under the asked types) arrive; violation iff a library thread panicked or the responder stops answering; skipped (no claim) when multicast is unusable. Non-trivial = a datagram shorter than 12 bytes or a parsed datagram with hostile names",
         assumptions: vec![
             "the pure pipeline copies the loop bodies (simple_responder.rs, service_discovery.rs, oneshot_resolver.rs); an edit to the loops themselves is only visible to the socket section",
             "reader/writer interleavings on the shared store are only sampled (section concurrent), not explored systematically",
